@@ -141,7 +141,7 @@ Plan(sh)     == PlannedComponents(sh, InstantiationOrder(sh, sh.links).order)
 \* (:424-431), and reorder (:442) drags r.child along with the key r.  Named here; everything else must refine Ref.
 NestedTarget(sh, l) == \E c \in CompDests(sh) : Inside(l.tobj, c)
 MisorderedLinksP(sh, plan) == {i \in DOMAIN sh.links : NestedTarget(sh, sh.links[i]) /\ \E j \in DOMAIN sh.links[i].srcs :
-                                 Index(plan, OwnerOf(sh, sh.links[i].tobj)) < Index(plan, sh.links[i].srcs[j].obj)}
+                                 Index(plan, OwnerOf(sh, sh.links[i].tobj)) < Index(plan, SrcDest(sh, sh.links[i].srcs[j]))}
 MisorderedLinks(sh) == MisorderedLinksP(sh, Plan(sh))
 NestedTargetMisordered(sh) == MisorderedLinks(sh) # {}
 \* Second recorded deviation (finding C16 nested-source-unreachable): a class-typed parameter of a class group
